@@ -31,6 +31,7 @@ static int nev;
 static am_block blk[AM_MAX_BLOCKS];
 static int nblk;
 static long fail_at = -1;      /* fail the k-th monitored request (1-based) since reset */
+static int fail_persist;       /* ... and every later one as well (memory is really exhausted) */
 static long nreq;
 static int cur_obj = -1, cur_op = -1;
 static void *decoys[8]; static int ndecoy;
@@ -38,9 +39,10 @@ static int enabled = 1;
 static unsigned min_align = 16;
 void am_set_min_align(unsigned a) { min_align = a; }
 
-void am_reset(void) { nev = 0; nreq = 0; fail_at = -1; cur_obj = cur_op = -1; }
+void am_reset(void) { nev = 0; nreq = 0; fail_at = -1; fail_persist = 0; cur_obj = cur_op = -1; }
 void am_hard_reset(void) { am_reset(); nblk = 0; ndecoy = 0; }
-void am_set_fail_at(long k) { fail_at = k; nreq = 0; }
+void am_set_fail_at(long k) { fail_at = k; fail_persist = 0; nreq = 0; }
+void am_set_fail_from(long k) { fail_at = k; fail_persist = 1; nreq = 0; }
 void am_mark(int obj, int op) { cur_obj = obj; cur_op = op; }
 int am_nevents(void) { return nev; }
 const am_event *am_events(void) { return ev; }
@@ -68,7 +70,7 @@ static void *arena_alloc(size_t size, size_t align, int zero, int op)
     am_block *b;
     am_event *e;
     ++nreq;
-    if (fail_at > 0 && nreq == fail_at) { e = log_ev(op, size, NULL); if (e) e->failed_by_injection = 1; return NULL; }
+    if (fail_at > 0 && (nreq == fail_at || (fail_persist && nreq > fail_at))) { e = log_ev(op, size, NULL); if (e) e->failed_by_injection = 1; return NULL; }
     if (span == 0) span = PG;
     if (nblk >= AM_MAX_BLOCKS) { log_ev(op, size, NULL); return NULL; }
     m = mmap(NULL, span + PG, PROT_READ | PROT_WRITE, MAP_PRIVATE | MAP_ANONYMOUS, -1, 0);
@@ -239,7 +241,7 @@ static void *wrap_mmap_common(void *addr, size_t len, int prot, int flags, int f
     void *p; am_block *b; am_event *e;
     if (!monitored()) return __real_mmap(addr, len, prot, flags, fd, off);
     ++nreq;
-    if (fail_at > 0 && nreq == fail_at) { e = log_ev(AM_MMAP, len, NULL); if (e) { e->failed_by_injection = 1; e->is_map = 1; } errno = ENOMEM; return MAP_FAILED; }
+    if (fail_at > 0 && (nreq == fail_at || (fail_persist && nreq > fail_at))) { e = log_ev(AM_MMAP, len, NULL); if (e) { e->failed_by_injection = 1; e->is_map = 1; } errno = ENOMEM; return MAP_FAILED; }
     p = __real_mmap(addr, len, prot, flags, fd, off);
     if (p == MAP_FAILED || nblk >= AM_MAX_BLOCKS) { e = log_ev(AM_MMAP, len, NULL); if (e) e->is_map = 1; return p; }
     b = &blk[nblk]; memset(b, 0, sizeof(*b));
